@@ -1,4 +1,6 @@
 import HapVerif.Model.Protocol
+import HapVerif.Model.BleReassembly
+import HapVerif.Gen.BleReassembly
 
 /-! # C04 - an accessory error or out-of-sequence reply never completes as success -/
 
@@ -169,5 +171,90 @@ example : ∀ s : Step, runStep s true [(7, [2]), (3, [1]), (2, [9])] (fun _ => 
 theorem C04_gen_tie : Gen.Tlv.kTLVType_State = 6 ∧ Gen.Tlv.kTLVType_Error = 7 ∧ Gen.Tlv.M2 = [2] ∧ Gen.Tlv.M4 = [4] ∧
     Gen.Tlv.M6 = [6] ∧ Gen.Tlv.kTLVType_PublicKey = 3 ∧ Gen.Tlv.kTLVType_Salt = 2 ∧ Gen.Tlv.kTLVType_Proof = 4 ∧
     Gen.Tlv.kTLVType_EncryptedData = 5 := by decide
+
+
+/-! ## Over BLE: what the state machine is handed when the accessory's reply arrives in fragments -/
+
+section BleDelivery
+open HapVerif.BleReassembly
+
+theorem loop_datas (chunks : List Bytes) (buf : Bytes) (rest : List Reply) (fuel : Nat) :
+    loop (chunks.length + fuel) buf (chunks.map .data ++ rest) = loop fuel (buf ++ chunks.flatten) rest := by
+  induction chunks generalizing buf with
+  | nil => simp
+  | cons c cs ih =>
+    have : (c :: cs).length + fuel = (cs.length + fuel) + 1 := by simp; omega
+    rw [this]
+    simp only [List.map_cons, List.cons_append, loop]
+    rw [ih]
+    simp [List.append_assoc]
+
+/-- **a complete transfer is reassembled to exactly the bytes the accessory cut up** - any number of `FragmentData` chunks
+    below the bound, of any sizes (empty ones included), then `FragmentLast`: the state machine is handed the decoding of
+    the concatenation, i.e. of the reply itself, so everything C04 proves about a reply holds for it however it was cut -/
+theorem C04_ble_transfer_reassembled (chunks : List Bytes) (last : Bytes) (more : List Reply) (mx : Nat)
+    (h : chunks.length < mx) :
+    run mx (chunks.map .data ++ [.last last] ++ more) = .assembled (chunks.flatten ++ last) := by
+  unfold run
+  obtain ⟨k, hk⟩ : ∃ k, mx = chunks.length + (k + 1) := ⟨mx - chunks.length - 1, by omega⟩
+  rw [hk, List.append_assoc, loop_datas]
+  simp [loop]
+
+/-- **an unfragmented reply stands alone**: when, after any number of `FragmentData` chunks, the accessory answers with a
+    reply that carries no fragment item - its error reply, a reply of another step - THAT reply is what the state machine is
+    handed, whatever has been buffered and whatever would follow; the buffered chunks never stand in for it -/
+theorem C04_ble_plain_reply_wins (chunks : List Bytes) (p : Nat) (more : List Reply) (mx : Nat) (h : chunks.length < mx) :
+    run mx (chunks.map .data ++ [.plain p] ++ more) = .plain p := by
+  unfold run
+  obtain ⟨k, hk⟩ : ∃ k, mx = chunks.length + (k + 1) := ⟨mx - chunks.length - 1, by omega⟩
+  rw [hk, List.append_assoc, loop_datas]
+  simp [loop]
+
+/-- non-vacuity: three chunks then an error reply (the history seed C04-11 turned into a success) -/
+example : run 50 [.data [1, 2], .data [3], .data [], .plain 7, .last [9]] = .plain 7 :=
+  C04_ble_plain_reply_wins [[1, 2], [3], []] 7 [.last [9]] 50 (by decide)
+
+/-- a transfer that never ends is refused after `maxReassembly` replies -/
+theorem C04_ble_too_many (chunks : List Bytes) (more : List Reply) (mx : Nat) (h : mx ≤ chunks.length) :
+    run mx (chunks.map .data ++ more) = .tooMany := by
+  unfold run
+  induction chunks generalizing mx with
+  | nil =>
+    have : mx = 0 := by simpa using h
+    subst this; rfl
+  | cons c cs ih =>
+    cases mx with
+    | zero => rfl
+    | succ m =>
+      simp only [List.map_cons, List.cons_append, loop]
+      have hm : m ≤ cs.length := by simpa using h
+      -- the buffer's content is irrelevant to the outcome
+      have gen : ∀ (b : Bytes) (m : Nat) (cs : List Bytes), m ≤ cs.length → loop m b (cs.map .data ++ more) = .tooMany := by
+        intro b m cs
+        induction cs generalizing b m with
+        | nil => intro h; have : m = 0 := by simpa using h
+                 subst this; rfl
+        | cons c cs ih2 =>
+          intro h
+          cases m with
+          | zero => rfl
+          | succ m => simp only [List.map_cons, List.cons_append, loop]; exact ih2 _ _ (by simpa using h)
+      exact gen _ m cs hm
+
+/-- **the loop of the model is the loop of the source** (`C04_gen_ble_reassembly_tie`): the bound, the ORDER of the two tests
+    (`FragmentLast` first), what each branch does (extend + decode the buffer + return; extend + acknowledge; otherwise
+    `return decoded` - the unfragmented reply as it is), the empty initial buffer and the `ValueError` after the loop, lifted
+    from `_pairing_char_write` on every run -/
+theorem C04_gen_ble_reassembly_tie :
+    Gen.BleReassembly.maxReassembly = 50 ∧
+    Gen.BleReassembly.test1 = "TLV.kTLVType_FragmentLast in decoded" ∧
+    Gen.BleReassembly.do1 = ["extend:decoded[TLV.kTLVType_FragmentLast]", "return:dict(TLV.decode_bytes(buffer))"] ∧
+    Gen.BleReassembly.else1 = [] ∧
+    Gen.BleReassembly.test2 = "TLV.kTLVType_FragmentData in decoded" ∧
+    Gen.BleReassembly.do2 = ["extend:decoded[TLV.kTLVType_FragmentData]", "ack"] ∧
+    Gen.BleReassembly.else2 = ["return:decoded"] ∧
+    Gen.BleReassembly.bufferInit = ["bytearray()"] ∧ Gen.BleReassembly.afterLoop = "ValueError" := by decide
+
+end BleDelivery
 
 end HapVerif.C04
